@@ -191,7 +191,9 @@ def _tree_batch(args):
             # (for input that is not made of recognised sequences / valid characters the clause does not apply)
             if not can_grow(seq, enc, allkeys) and (seq in allkeys or _valid(seq, enc)) \
                     and not (enc == "utf-8" and len(seq) == 1 and seq[0] >= 0x80):
-                fails.append((seq, enc, "asks for more input although the bytes can grow into neither a recognised sequence nor a character"))
+                if len(fails) < 400:
+                    fails.append((seq, enc, "asks for more input although the bytes can grow into neither a recognised sequence nor a character"))
+                continue        # (reported; what the decoder would do with still more bytes behind it is not explored: the tree would have no end)
             if len(seq) <= EV.MAX_KEYPRESS_SIZE:
                 stack.extend(seq + bytes([b]) for b in (range(256) if (enc != "utf-8" or seq[0] == 0x1b) else
                                                        [0x00, 0x28, 0x7f, 0x80, 0x8f, 0x90, 0x9f, 0xa0, 0xbf, 0xc0, 0xff]))
